@@ -261,6 +261,7 @@ type npsModel struct {
 	limit    int64
 	granted  map[string]int64 // per thread
 	created  int
+	names    map[string]bool // NodeClaims written to the API so far
 	viol     []string
 }
 
@@ -279,6 +280,11 @@ func provProgram(tid string, want int64, createFails bool) []npsOp {
 	ops := []npsOp{{tid + ":Reserve", func(s *state.NodePoolState, m *npsModel) {
 		g := s.ReserveNodeCount("static", m.limit, want)
 		m.granted[tid] = g
+		if g < 0 || g > want {
+			// the callers slice and loop with the grant (StaticDrift: npCandidates[:grant]); a negative grant also GIVES BACK
+			// somebody else's outstanding reservation
+			m.viol = append(m.viol, fmt.Sprintf("ReserveNodeCount(limit=%d, want=%d) granted %d", m.limit, want, g))
+		}
 	}}}
 	for i := int64(0); i < want; i++ {
 		i := i
@@ -287,6 +293,10 @@ func provProgram(tid string, want int64, createFails bool) []npsOp {
 				return
 			}
 			m.created++
+			if m.names == nil {
+				m.names = map[string]bool{}
+			}
+			m.names[fmt.Sprintf("%s-new%d", tid, i)] = true
 			s.UpdateNodeClaim(claim(fmt.Sprintf("%s-new%d", tid, i), false), false)
 		}}, npsOp{tid + ":Release", func(s *state.NodePoolState, m *npsModel) {
 			if m.granted[tid] <= i {
@@ -315,6 +325,18 @@ func c03Seam(r *ev.Rec) {
 	pending := func(c string) npsOp {
 		return npsOp{"queue:PendingDisruption(" + c + ")", func(s *state.NodePoolState, m *npsModel) { s.MarkNodeClaimPendingDisruption("static", c) }}
 	}
+	// the NodeClaim informer delivers the create event of a NodeClaim the provisioner has just written — possibly before
+	// the provisioner itself has marked it and released its reservation (the claim is then counted twice for a moment)
+	created := func(c string) npsOp {
+		return npsOp{"informer:Created(" + c + ")", func(s *state.NodePoolState, m *npsModel) {
+			if m.names[c] {
+				s.UpdateNodeClaim(claim(c, false), false)
+			}
+		}}
+	}
+	lowerLimit := func(to int64) npsOp {
+		return npsOp{fmt.Sprintf("user:LowerLimit(%d)", to), func(s *state.NodePoolState, m *npsModel) { m.limit = to }}
+	}
 	var scens []scen
 	for _, fails := range []bool{false, true} {
 		f := map[bool]string{false: "", true: " (create fails)"}[fails]
@@ -324,6 +346,8 @@ func c03Seam(r *ev.Rec) {
 			scen{"two provisioners racing for the last slot" + f, 2, []string{"c1"}, [][]npsOp{provProgram("prov", 1, fails), provProgram("drift", 1, false), inf("inf", cleanup("c1"))}},
 			scen{"provision 2 with limit 2 while a claim is cleaned up" + f, 2, nil, [][]npsOp{provProgram("prov", 2, fails), inf("inf", cleanup("prov-new0"))}},
 			scen{"pending-disruption only, then cleanup of the last active" + f, 3, []string{"c1", "c2"}, [][]npsOp{append([]npsOp{pending("c1")}, provProgram("drift", 1, fails)...), inf("inf", deleting("c2"), cleanup("c2"))}},
+			scen{"provision up to the limit, the informer sees the new claim before the release, StaticDrift reserves meanwhile" + f, 2, []string{"c1"}, [][]npsOp{provProgram("prov", 1, fails), inf("inf", created("prov-new0")), provProgram("drift", 1, false)}},
+			scen{"the user lowers the node limit below the current count while a drift replacement is reserved" + f, 2, []string{"c1", "c2"}, [][]npsOp{{lowerLimit(1)}, provProgram("drift", 1, fails), inf("inf", deleting("c2"), cleanup("c2"))}},
 		)
 	}
 	enum.Run(r, int64(len(scens)), func(idx int64, l *ev.Local) {
@@ -365,9 +389,13 @@ func c03Seam(r *ev.Rec) {
 					l.Violation("NodePoolState bookkeeping panics: "+opClass(op.name), fmt.Sprintf("%s panicked (%s) after %v  [%s]", op.name, crashed, hist, sc.name), map[string]any{"scenario": sc.name, "ops": hist})
 					break
 				}
+				for _, v := range m.viol {
+					l.Violation("NodePoolState grants a count outside [0, wanted]", fmt.Sprintf("%s after %v  [%s]", v, hist, sc.name), map[string]any{"scenario": sc.name, "ops": hist})
+				}
+				m.viol = nil
 				a, d, p := s.GetNodeCount("static")
 				// grants outstanding (reserved but neither created nor released) + counted claims must fit the limit
-				if int64(a+d+p) > sc.limit {
+				if int64(a+d+p) > sc.limit && m.limit == sc.limit {
 					l.Violation("static node limit exceeded at the NodePoolState seam", fmt.Sprintf("active=%d deleting=%d pending=%d > limit %d after %v  [%s]", a, d, p, sc.limit, hist, sc.name), map[string]any{"scenario": sc.name, "ops": hist})
 				}
 				l.States++
@@ -509,6 +537,13 @@ func c03Protocol(r *ev.Rec) {
 			var viol []c01Violation
 			th := explore.NewThreads(run)
 			w.Client.Sched = th.Yield
+			// ... and right after a NodeClaim write returned: the window in which the API already has the object while the
+			// writer has not yet updated its in-memory bookkeeping (cluster cache, reservation) is a scheduling point too
+			w.Client.SchedAfter = func(label string) {
+				if strings.Contains(label, "NodeClaim") && !strings.HasPrefix(label, "get ") && !strings.HasPrefix(label, "list ") {
+					th.Yield("after " + label)
+				}
+			}
 			taken := w.AttachFaults(run, func(c *world.Call) bool { return c.Verb == "create" && c.Kind == "NodeClaim" })
 			th.OnPoint = func() {
 				if lim := limitNow(); lim > 0 {
@@ -596,7 +631,10 @@ func c03Protocol(r *ev.Rec) {
 			if c03Debug != nil {
 				c03Debug(sc.String(), run.Choices(), th.Trace)
 			}
-			w.Client.Sched = nil
+			if os.Getenv("C03_TRACE") != "" {
+				fmt.Fprintf(os.Stderr, "TRACE %v panics=%d\n", th.Trace, len(th.Panics))
+			}
+			w.Client.Sched, w.Client.SchedAfter = nil, nil
 			w.Client.Hook, w.CP.Hook = nil, nil
 			for _, p := range th.Panics {
 				viol = append(viol, c01Violation{"static bookkeeping crashed a controller", firstLines(p, 3)})
@@ -702,8 +740,10 @@ func init() {
 			"B (seam): the real NodePoolState under EVERY interleaving of the operation programs of concurrent reconciles (provisioning = Reserve; per slot Create ok|fail then Release; informer = Deleting/Cleanup; queue = PendingDisruption + replacement provisioning): no panic, counted claims never exceed the limit. " +
 			"C (protocol): the real static provisioning (twice) and deprovisioning controllers, the real NodeClaim informer and an environment thread (user deletes a NodeClaim / replicas +-1) and, when a NodeClaim is drifted, the real disruption controller restricted to StaticDrift with the real orchestration queue, as cooperative threads with scheduling points at every API call, all schedules with <=1/2 preemptions x a failing NodeClaim create, replicas {1,2} x node limit {unset, replicas, replicas+1} x existing {r-1,r,r+1}; invariant at every scheduling point: NodeClaims <= node limit; no controller panic; after a fault-free settle the live count equals the replica count. states = scheduling points / seam states visited; non-trivial = distinct executions"
 		r.Assumptions = []string{"fan-out of CreateNodeClaims is 1 in the protocol part (one NodeClaim per reconcile) so that the child goroutine is attributed to its thread", "settling plays finalization of deleting NodeClaims and kubelet bring-up of new ones"}
-		c03Dynamic(r)
-		c03Seam(r)
+		if os.Getenv("C03_ONLY") == "" { // C03_ONLY=<scenario index>: debug run of one protocol scenario
+			c03Dynamic(r)
+			c03Seam(r)
+		}
 		c03Protocol(r)
 	})
 }
